@@ -16,7 +16,7 @@ MUST_RAISE = [
     'window-empty', 'window-beyond', 'slong-2^31', 'list-to-single-valued-attribute', 'sul-seq-not-positive',
     'sul-seq-not-an-integer', 'header-seq-not-an-integer', 'header-seq-reassigned-invalid', 'origin-ref-of-no-origin',
     'no-logical-file', 'status-fraction-not-float', 'missing-dataset-after-earlier-write', 'partial-data-after-earlier-write',
-    'float-cast-out-of-range',
+    'float-cast-out-of-range', 'origin-reference-shared-by-two-origins',
 ]
 FRINGE = ['empty-value-list', 'empty-text', 'empty-payload', 'single-row', 'width-1', 'origin-ref-0', 'name-255', 'ident-255',
           'text-20000', 'units-255', 'many-values-300', 'set-name-255', 'header-id-65', 'sul-id-60', 'empty-ident',
@@ -187,6 +187,12 @@ def inject(sp, c, r):
         sp['ops'] = [o for o in ops if o['op'] != 'frame' and not _refs_any(o, frames)]
         _reindex_after_removal(sp, ops)
         return 'spec'
+    if c == 'origin-reference-shared-by-two-origins':
+        # a second ORIGIN object is given the reference of the first through the setter (add_origin itself refuses that)
+        first = next(i for i, o in enumerate(ops) if o['op'] == 'origin')
+        k_ = add(gen.origin_op('ORIGIN-INJ', fsn=5, lf=ops[first].get('lf', 0)))
+        ops.append({'op': 'setattr', 'target': k_, 'field': 'origin_reference', 'value': {'$origin_of': first}})
+        return 'second origin'
     if c == 'origin-ref-of-no-origin':
         # an explicit origin reference that no ORIGIN object of the logical file carries (at creation, or assigned later)
         i = some_obj()
